@@ -1889,7 +1889,9 @@ class AdvertisingData:
             return cast(int, struct.unpack('b', ad_data)[0])
 
         if ad_type == AdvertisingData.Type.FLAGS:
-            return cast(int, struct.unpack('B', ad_data)[0])
+            # Zero or more octets, little-endian (Core Specification Supplement,
+            # Part A, 1.3)
+            return int.from_bytes(ad_data, 'little')
 
         if ad_type in (AdvertisingData.Type.ADVERTISING_INTERVAL,):
             return cast(int, struct.unpack('<H', ad_data)[0])
